@@ -121,14 +121,15 @@ Import ListNotations.
 def _digest(nums):
     h = 7
     for x in nums:
-        h = (h * 1000003 + x + 1) % P
+        h = ((h << 20) + 7 * h + x + 1) & P
     return h
 
 
 def _ilist_code(xs):
     out = [len(xs)]
     for x in xs:
-        out.extend(x.key)
+        sp, spn, num, let, uid = x.key
+        out.append(sp + 3 * (spn + 3 * (let + 256 * (num + 1024 * uid))))
     return out
 
 
